@@ -52,6 +52,7 @@ var optAlpha = map[string][]rune{
 	"generic-unknownsym": {'a', '?', '!', ' ', 0xffff, '#', '\n'},
 	"expression-custom":  {'a', '1', '-', '>', '=', ' ', '\''},
 	"generic-2quotes":    {'a', '`', '\'', ' ', '#', '\n'},
+	"generic-interned":   {'a', ' ', '\n', '\r', '#'},
 }
 
 var optSnippets = map[string][]string{
@@ -66,6 +67,7 @@ var optSnippets = map[string][]string{
 	"generic-unknownsym": {"a ? b ?! c !? <= ? # c\n?", "??!?\uffff?# c\n? ?"},
 	"expression-custom":  {"a->b => c-- -= -1 /* c */ - 2 --3 'q'", "x-->y  -=- 1e-5\n->"},
 	"generic-2quotes":    {"a `b``c` 'd' \"e\" # c\n`open", "`` ```` `'`  '`' x"},
+	"generic-interned":   {"a\nb \n c\n\nd \r\n e # c\n", "\n x\n\n  y"},
 	"mustache":           {"a {{ \"}}\" x }} b {{ '}}}' }}} c {{ '{{' }}", "Hello, {{ Name }}!\n{{#if a}} x {{/if}}", "{{ 'q'  \"r\" }} t {{{ b }}}", "a\r\n{{ b 😀 c }}\n d", "{{a}}{{b}} {{ c  d }}"},
 }
 
@@ -82,6 +84,7 @@ var optLexemes = map[string][]string{
 	"generic-unknownsym": {"a", "?", "?!", "!", " ", "# c", "\uffff", "\n"},
 	"expression-custom":  {"a", "1", "->", "=>", "--", "-", ">", " ", "/*c*/", "'q'"},
 	"generic-2quotes":    {"a", "`q``r`", "``", "'q'", " ", "# c", "\n", "`"},
+	"generic-interned":   {"a", "\n", " ", "\r\n", "# c", "1"},
 }
 
 func genOpts(g *Gen, positions bool) {
@@ -94,6 +97,9 @@ func genOpts(g *Gen, positions bool) {
 	}
 	for _, kind := range tokKinds {
 		kind := kind
+		if positions && kind == "generic-interned" {
+			continue // its caller-written state hands out one token object with one fixed position
+		}
 		ln := g.Pick(3, 4)
 		if kind == "csv" && !g.Thorough() {
 			ln = 4
@@ -130,7 +136,7 @@ func genOpts(g *Gen, positions bool) {
 			offs = []int{62, 63, 64, 65, 126, 127, 128, 129, 191, 192, 255, 256}
 		}
 		fill := map[string]string{"generic": "ab 12 <= ", "expression": "ab 1.5 <= ", "csv": "ab,12,\"q\",", "mustache": "ab {{c}} d", "generic-custom": "a=:=b <!-- ",
-			"generic-arrows": "ab→ж 12 ", "csv-wide": "ab；«q«；ж；", "generic-quotes": "ab «q« 12 ", "generic-unknownsym": "ab ?! 12 ", "expression-custom": "ab->1 => ", "generic-2quotes": "ab `q` 12 "}[kind]
+			"generic-arrows": "ab→ж 12 ", "csv-wide": "ab；«q«；ж；", "generic-quotes": "ab «q« 12 ", "generic-unknownsym": "ab ?! 12 ", "expression-custom": "ab->1 => ", "generic-2quotes": "ab `q` 12 ", "generic-interned": "ab\n12 \n"}[kind]
 		for _, p := range offs {
 			for bi, br := range []string{"\n", "\r\n", "\r", "\n\r"} {
 				if !g.Thorough() && bi >= 2 && p%64 != 63 {
